@@ -1,4 +1,10 @@
 FINDINGS = [
+    dict(id="C20-parent-of-output-directory-gets-init-file", property="C20",
+         pattern=dict(check="exmod", clause="created_outside_output_dir", where="elsewhere", out_is_target=True, dry_run=False),
+         what="when the output directory is named like the target module (--target-module-name gold, -o .../gold) a real run creates (or appends to) __init__.py in the *parent* of the output "
+              "directory: a file outside the given output directory (the layout the repository's own exmod tests use)",
+         site="cdd/compound/exmod_utils.py:emit_file_on_hierarchy (`open(path.join(path.dirname(mod_path), '__init__.py'), 'a')`)",
+         example="exmod -m c20pkg --emit class --target-module-name gold -o <work>/gold  ->  <work>/__init__.py is created"),
     dict(id="C20-reexported-symbols-bypass-blacklist", property="C20",
          pattern=dict(check="exmod", clause="filtered_module_emitted", filter={"in": ["blacklist_alpha", "blacklist_sub"]}),
          what="the blacklist/whitelist gate is applied to the package directory being traversed only; a module (pkg.alpha) or sub-package (pkg.sub) whose symbols are re-exported "
